@@ -18,7 +18,7 @@ pub const INDEX_BASE: u64 = 0x10_0000;
 pub enum DevEvent {
     MapGrant { first_ref: u32, count: u32, index: u64, ok: bool },
     UnmapGrant { index: u64, count: u32, ok: bool },
-    PrivcmdBatch { num: u32, ok: bool },
+    PrivcmdBatch { num: u32, first_pfn: u64, ok: bool },
 }
 
 #[derive(Default)]
@@ -37,6 +37,8 @@ pub struct EmuState {
     /// answer a map request for 0 grants with EINVAL (like the kernel) or with success
     pub zero_count_einval: bool,
     pub max_live: usize,
+    /// first guest frame named by the last privcmd batch
+    pub last_foreign_first_pfn: Option<u64>,
 }
 
 pub struct Emu {
@@ -65,6 +67,18 @@ impl Emu {
                 return None;
             }
             let mut s = st.borrow_mut();
+            // the request numbers of the kernel ABI (_IOC(_IOC_NONE, type, nr, size of the
+            // argument struct)): a request with another size field is not the one the driver knows
+            let expected: u64 = match (ty, nr) {
+                (b'G', 0) => (24 << 16) | ((b'G' as u64) << 8),
+                (b'G', 1) => (16 << 16) | ((b'G' as u64) << 8) | 1,
+                (b'P', 4) => (32 << 16) | ((b'P' as u64) << 8) | 4,
+                _ => req,
+            };
+            if req & 0xffff_ffff != expected {
+                s.protocol_errors.push(format!("ioctl request {:#x} is not the driver's request number {:#x}", req, expected));
+                return Some((-1, libc::ENOTTY));
+            }
             match (ty, nr) {
                 (b'G', 0) => {
                     // SAFETY: layout of ioctl_gntdev_map_grant_ref
@@ -140,8 +154,25 @@ impl Emu {
                 (b'P', 4) => {
                     // SAFETY: num is the first field of privcmd_mmapbatch_v2
                     let num = unsafe { *(arg as *const u32) };
+                    // SAFETY: layout of privcmd_mmapbatch_v2 (num, domid, addr, arr, err); the
+                    // frame array holds `num` entries
+                    let first_pfn = unsafe {
+                        let arr = *((arg as *const u8).add(16) as *const *const u64);
+                        let mut first = 0u64;
+                        for i in 0..num as usize {
+                            let f = *arr.add(i);
+                            if i == 0 {
+                                first = f;
+                            } else if f != first + i as u64 {
+                                s.protocol_errors.push(format!("privcmd batch: frame {} is {:#x}, expected {:#x}", i, f, first + i as u64));
+                                break;
+                            }
+                        }
+                        first
+                    };
                     let ok = !s.fail_privcmd;
-                    s.log.push(DevEvent::PrivcmdBatch { num, ok });
+                    s.last_foreign_first_pfn = Some(first_pfn);
+                    s.log.push(DevEvent::PrivcmdBatch { num, first_pfn, ok });
                     if ok {
                         Some((0, 0))
                     } else {
@@ -203,7 +234,12 @@ impl Emu {
 
     pub fn foreign_region(&self, base: u64, size: usize) -> Result<GuestRegionMmap<()>, String> {
         let range = MmapRange::new(size, Some(self.file_offset(0)), GuestAddress(base), MmapXenFlags::FOREIGN.bits(), 0);
+        self.state.borrow_mut().last_foreign_first_pfn = None;
         let r = MmapRegion::<()>::from_range(range).map_err(|e| format!("{:?}", e))?;
+        let named = self.state.borrow().last_foreign_first_pfn;
+        if named != Some(base / PAGE) {
+            self.state.borrow_mut().protocol_errors.push(format!("foreign region at guest address {:#x}: the privcmd batch names frame {:x?}, expected {:#x}", base, named, base / PAGE));
+        }
         GuestRegionMmap::new(r, GuestAddress(base)).map_err(|e| format!("{:?}", e))
     }
 
